@@ -161,27 +161,24 @@ Live == {x \in Acc : ~dead[x]}
 NonEmptyG == {x \in Acc : Len(rows[x]) > 0}
 ValidSrcs(a) == {s \in SrcLists : /\ \A i \in 1..Len(s) : s[i] # a /\ ~dead[s[i]]
                                   /\ \A i, j \in 1..Len(s) : i # j => s[i] # s[j]}
-NextMerge  == \E kind \in PickK({"u", "e", "m"}) : \E a \in Pick(Live) :
-                 \/ kind = "u" /\ Update(a)
-                 \/ kind = "e" /\ Evaluate(a)
-                 \/ kind = "m" /\ \E s \in Pick(ValidSrcs(a)) : MergeInto(a, s)
-NextSlide  == \E kind \in PickK({"u", "e", "r"}) :
-                 \/ kind = "u" /\ \E a \in Pick(Acc) : Update(a)
-                 \/ kind = "r" /\ \E a \in Pick({x \in Acc : rows[x] # <<>>}) : Retract(a)
-                 \/ kind = "e" /\ \E a \in Pick(Acc) : Evaluate(a)
-NextGroups == \E kind \in PickK({"u", "e", "m", "c"}) :
-                 \/ kind = "u" /\ \E a \in Pick(Acc) : UpdateGroups(a)
-                 \/ kind = "e" /\ \E a \in Pick(NonEmptyG) : EvaluateEmit(a)
-                 \/ kind = "m" /\ \E b \in Pick(NonEmptyG) : \E a \in Pick(Acc \ {b}) : StateMerge(a, b)
-                 \/ kind = "c" /\ \E a \in Pick(Acc) : \E b \in Pick(Acc) : ConvertMerge(a, b)
+\* Top-level actions (named, so that TLC's coverage reports each).  Gate(k) randomly closes operation kinds
+\* in generator instances (PickK = random subset) and is always open in exhaustive instances (PickK = identity).
+Scalar == MODE \in {"merge", "slide"}
+Gate(k) == k \in PickK({"u", "e", "m", "c"})
+DoUpdate   == nops < MaxOps /\ Scalar /\ Gate("u") /\ \E a \in Pick(Live) : Update(a)
+DoEvaluate == nops < MaxOps /\ Scalar /\ Gate("e") /\ \E a \in Pick(Live) : Evaluate(a)
+DoMerge    == nops < MaxOps /\ MODE = "merge" /\ Gate("m") /\ \E a \in Pick(Live) : \E s \in Pick(ValidSrcs(a)) : MergeInto(a, s)
+DoRetract  == nops < MaxOps /\ MODE = "slide" /\ Gate("m") /\ \E a \in Pick({x \in Acc : rows[x] # <<>>}) : Retract(a)
+DoUpdateGroups == nops < MaxOps /\ MODE = "groups" /\ Gate("u") /\ \E a \in Pick(Acc) : UpdateGroups(a)
+DoEvaluateEmit == nops < MaxOps /\ MODE = "groups" /\ Gate("e") /\ \E a \in Pick(NonEmptyG) : EvaluateEmit(a)
+DoStateMerge   == nops < MaxOps /\ MODE = "groups" /\ Gate("m") /\ \E b \in Pick(NonEmptyG) : \E a \in Pick(Acc \ {b}) : StateMerge(a, b)
+DoConvertMerge == nops < MaxOps /\ MODE = "groups" /\ Gate("c") /\ \E a \in Pick(Acc) : \E b \in Pick(Acc) : ConvertMerge(a, b)
 
 \* the single step that closes a history (so that a generated case is printed exactly once)
 Finish == nops = MaxOps /\ ~done /\ done' = TRUE /\ UNCHANGED <<rows, dead, hist, nops, inp, outp>>
 
-Next == \/ /\ nops < MaxOps
-           /\ CASE MODE = "merge" -> NextMerge
-                [] MODE = "slide" -> NextSlide
-                [] MODE = "groups" -> NextGroups
+Next == \/ DoUpdate \/ DoEvaluate \/ DoMerge \/ DoRetract
+        \/ DoUpdateGroups \/ DoEvaluateEmit \/ DoStateMerge \/ DoConvertMerge
         \/ Finish
 
 Spec == Init /\ [][Next]_vars
